@@ -128,7 +128,11 @@ def stepWith (which : Which) (d : DSt) (fields : List String) (impl : String) : 
       | some o => !o.crashed && gateOk d.cfg o.writes && (o.established == est)
       | none => false
     (d, ⟨ms, ms == impl, gateOk d.cfg ws, okI, "-"⟩)
-  | "conn" :: rest =>
+  | kind :: rest =>
+    if kind != "conn" && kind != "apiconn" then (d, .bad) else
+    -- `apiconn`: a NEW client (made by NewClient alone) connects: a fresh session, the case's session untouched
+    let d0 := d
+    let d : DSt := if kind == "apiconn" then { d with sess := ⟨false, "", 0, "", d.sess.smReq⟩ } else d
     let m := kv rest
     let tcfg : Model.C04.TlsCfg := ⟨getB m "skip", getB m "roots", getS m "sn", getS m "dom"⟩
     let cert : Model.C04.Cert := ⟨getB m "ca", getB m "unexp", ((getRaw m "names").splitOn "+").filterMap decStr⟩
@@ -160,7 +164,7 @@ def stepWith (which : Which) (d : DSt) (fields : List String) (impl : String) : 
     let okI := match io with
       | some o => !o.crashed && spec o.established o.writes o.permanent o.sess
       | none => false
-    ({ d with sess := r.sess }, ⟨ms, ms == impl, okM, okI, "-"⟩)
+    ((if kind == "apiconn" then d0 else { d with sess := r.sess }), ⟨ms, ms == impl, okM, okI, "-"⟩)
   | _ => (d, .bad)
 
 def handlerC03 : Handler := ⟨DSt, init, stepWith .c03⟩
